@@ -25,6 +25,7 @@ pub open spec fn is_renumbering(pi: Seq<usize>, states: Seq<State>, tr: Set<Tran
     &&& pi.len() == states.len() && m.states.seq().len() == states.len() && m.states.wf() && m.transitions.wf()
     &&& forall|i: int| 0 <= i < pi.len() ==> (#[trigger] pi[i]) < states.len() && m.states.seq()[pi[i] as int] == states[i]
     &&& forall|i: int, j: int| 0 <= i < j < pi.len() ==> #[trigger] pi[i] != #[trigger] pi[j]
+    &&& forall|a: int| 0 <= a < states.len() ==> #[trigger] crate::pipeline::sort_and_get_index_updater::hit(pi, a)
     &&& states.len() > 0 && m.start.0 == pi[0]
     &&& forall|t: Transition| #[trigger] m.transitions@.contains(t) <==>
             exists|t0: Transition| #[trigger] tr.contains(t0) && t == renumbered(pi, t0)
